@@ -2831,7 +2831,7 @@ class VM:
     @staticmethod
     def _describe(value: JSValue) -> str:
         """Text of a value for an error message (never the host's repr of it)."""
-        if isinstance(value, JSFunction):
+        if isinstance(value, (JSFunction, JSRegExp)):
             return repr(value)
         if isinstance(value, JSArray):
             return "[object Array]"
